@@ -205,6 +205,10 @@ class SumOperator(LinearOperator):
         if from_inverse:
             raise NotImplementedError(
                 "cannot draw from inverse of this operator")
+        if any(self._neg):
+            # samples of the summands add up to the covariance of the *sum*
+            raise NotImplementedError(
+                "cannot draw from a sum with subtracted operators")
         res = None
         for op in self._ops:
             from .simple_linear_operators import NullOperator
